@@ -31,6 +31,10 @@ CLAIMED = {
             "4.C08"),
     "C09": ("contract proof: BFS invariant of visit_connected_states (sound + closed under targets, LFP schema), iff-posts of the five metaclass checks and of _check",
             "4.C09"),
+    "C17": ("contract proof: __getstate__ / __setstate__ over the instance __dict__ view; round-trip clauses (options, listeners, engine kind, pending activation) with abstract contracts of the registration/engine helpers",
+            "4.C17"),
+    "C18": ("contract proof: nested-loop invariants + post of get_graph (one node per state, one edge per external transition, none for internal), _state_as_node, _transition_as_edge, relative to assumed pydot contracts",
+            "4.C18"),
     "C13": ("contract proof: post of send (the callee is a bound event of that name for EVERY string) over a symbolic attribute table; Event.__call__ queues exactly one item",
             "4.C13"),
 }
